@@ -112,6 +112,11 @@ class SpecEval:
         if dotted and dotted in self.reg.constants:
             return self.const(dotted)
         obj = self.eval(node.value, env)
+        o2 = ty.opt_val(obj) if isinstance(obj.t, ty.Opt) else obj
+        if isinstance(o2.t, ty.RefT) and self.reg.field_key(o2.t.cls, node.attr)[0] is None:
+            c = self.reg.find_method(o2.t.cls, node.attr)
+            if c is not None and c.is_property and c.pure and c.heap_independent:
+                return self.method(o2, node.attr, [], env)
         return self.read_field(env.st, obj, node.attr)[0]
 
     def const(self, dotted):
@@ -343,12 +348,11 @@ class SpecEval:
                 return SV(ty.Int, z3.IndexOf(recv.e, args[0].e, start))
         if isinstance(t, ty.RefT):
             c = self.reg.find_method(t.cls, name)
-            if c is not None and c.pure:
-                # pure method = uninterpreted function of (receiver, args) and the fields it may read: modelled as spec fun
-                fname = "pure_%s" % c.name.replace(".", "_")
-                if fname not in self.reg.specfuns:
-                    self.reg.specfun(fname, [t.cls] + list(c.params.values())[1:], c.returns)
-                return self.call_specfun(fname, [recv] + args, env)
+            if c is not None and c.pure and c.heap_independent:
+                ats = [self.T(a) for a in c.params.values()]
+                vals = [ops.coerce(a, t_) for a, t_ in zip([recv] + args, ats)]
+                f = z3.Function("pure_%s" % c.name.replace(".", "_").replace(":", "_"), *[ty.sort_of(a) for a in ats], ty.sort_of(self.T(c.returns)))
+                return SV(self.T(c.returns), f(*[v.e for v in vals]))
         raise Unsupported("spec method %s.%s" % (t, name))
 
 
